@@ -1,150 +1,15 @@
 import Arc.Proofs.C15.Strip
-/-! C15 helper lemmas: masker segments = SqlLex segments (comments forgotten) on `kClassM = 0`. -/
+/-! C15 helper lemmas: masker segments = SqlLex segments on `kClassM = 0` (tree at 64dff5c: the
+masker's quote bodies, E-string bodies, dollar tags and block comments ARE SqlLex's; what is left is
+the previous-byte test for `$` / `e'` and the `--` comment that only ends at `\n`). -/
 namespace Arc.C15
 
-theorem lBody_head (q x : UInt8) (r : Bytes) : ∃ l, (lBody q (x :: r)).1 = x :: l := by
-  cases r with
-  | nil => exact ⟨[], by simp [lBody]⟩
-  | cons y r =>
-    unfold lBody
-    split
-    · split
-      · exact ⟨_, rfl⟩
-      · exact ⟨_, rfl⟩
-    · exact ⟨_, rfl⟩
+theorem isIdCont_not_quote (c : UInt8) (h : isIdCont c = true) : c ≠ QUOTE ∧ c ≠ DQUOTE := by
+  constructor <;> (intro hc; subst hc; revert h; decide)
 
-theorem lEBody_head (x : UInt8) (r : Bytes) : ∃ l, (lEBody (x :: r)).1 = x :: l := by
-  cases r with
-  | nil => exact ⟨[], by simp [lEBody]⟩
-  | cons y r =>
-    unfold lEBody
-    split
-    · exact ⟨_, rfl⟩
-    · split
-      · split
-        · exact ⟨_, rfl⟩
-        · exact ⟨_, rfl⟩
-      · exact ⟨_, rfl⟩
-
-theorem hasPair_head (a b x y : UInt8) (l : Bytes) (h : hasPair a b (x :: y :: l) = false) :
-    ¬(x = a ∧ y = b) := by
-  simp [hasPair] at h
-  intro hh; exact absurd hh.2 (h.1 hh.1)
-
-theorem mBody_eq_lBody (q : UInt8) (t : Bytes) : ∀ (pb : Bool), (pb = true → t.head? ≠ some q) →
-    noBsQ q (lBody q t).1 = true → mBody q pb t = lBody q t := by
-  fun_induction lBody q t
-  · intro pb _ _; simp [mBody]
-  · intro pb _ _; simp [mBody]
-  · rename_i t2 r ih
-    intro pb hpb hn
-    simp only [noBsQ, Bool.not_eq_true', Bool.not_eq_eq_eq_not, Bool.not_true] at hn ih
-    have hn2 := hasPair_tail _ _ _ _ (hasPair_tail _ _ _ _ hn)
-    have := ih false (by simp) hn2
-    simp only [mBody, if_true, this, r]
-  · rename_i c2 t2 hc2
-    intro pb hpb hn
-    have : pb = false := by
-      cases pb with
-      | false => rfl
-      | true => simp at hpb
-    simp [mBody, hc2, this]
-  · rename_i c c2 t2 hc r ih
-    intro pb hpb hn
-    simp only [noBsQ, Bool.not_eq_true', Bool.not_eq_eq_eq_not, Bool.not_true] at hn ih
-    obtain ⟨l, hl⟩ := lBody_head q c2 t2
-    have hn' := hasPair_tail _ _ _ _ hn
-    have hpair : ¬(c = BSLASH ∧ c2 = q) := by
-      simp only [r, hl] at hn; exact hasPair_head _ _ _ _ _ hn
-    have := ih (decide (c = BSLASH)) (by
-      intro hb; simp at hb; simp; intro h2; exact hpair ⟨hb, h2⟩) hn'
-    simp only [mBody, hc, if_false, this, r]
-
-theorem mBody_eq_lEBody (t : Bytes) : ∀ (pb : Bool), (pb = true → t.head? ≠ some QUOTE) →
-    noBsQ QUOTE (lEBody t).1 = true → mBody QUOTE pb t = lEBody t := by
-  fun_induction lEBody t
-  · intro pb _ _; simp [mBody]
-  · intro pb _ _; simp [mBody]
-  · -- backslash: the lexer skips two bytes
-    rename_i c2 t2 r ih
-    intro pb hpb hn
-    simp only [noBsQ, Bool.not_eq_eq_eq_not, Bool.not_true] at hn ih
-    have hc2 : c2 ≠ QUOTE := by
-      intro h; exact hasPair_head _ _ _ _ _ hn ⟨rfl, h⟩
-    have hn2 := hasPair_tail _ _ _ _ (hasPair_tail _ _ _ _ hn)
-    have hbq : ¬(BSLASH = QUOTE) := by decide
-    cases t2 with
-    | nil => simp [mBody, hbq, hc2, r, lEBody]
-    | cons c3 t3 =>
-      obtain ⟨l, hl⟩ := lEBody_head c3 t3
-      have hpair : ¬(c2 = BSLASH ∧ c3 = QUOTE) := by
-        have h1 := hasPair_tail _ _ _ _ hn
-        simp only [r, hl] at h1; exact hasPair_head _ _ _ _ _ h1
-      have := ih (decide (c2 = BSLASH)) (by
-        intro hb; simp at hb; simp; intro h2; exact hpair ⟨hb, h2⟩) hn2
-      simp only [mBody, hbq, hc2, if_false, this, r]
-  · rename_i t2 r hbs ih
-    intro pb hpb hn
-    simp only [noBsQ, Bool.not_eq_eq_eq_not, Bool.not_true] at hn ih
-    have hn2 := hasPair_tail _ _ _ _ (hasPair_tail _ _ _ _ hn)
-    have := ih false (by simp) hn2
-    simp only [mBody, if_true, this, r]
-  · rename_i c2 t2 hc2 hbs
-    intro pb hpb hn
-    have : pb = false := by
-      cases pb with
-      | false => rfl
-      | true => simp at hpb
-    simp [mBody, hc2, this]
-  · rename_i c c2 t2 hb hc r ih
-    intro pb hpb hn
-    simp only [noBsQ, Bool.not_eq_eq_eq_not, Bool.not_true] at hn ih
-    have hn' := hasPair_tail _ _ _ _ hn
-    have := ih (decide (c = BSLASH)) (by intro h; simp [hb] at h) hn'
-    simp only [mBody, hc, if_false, this, r]
-
-theorem mTag_of_lTag (first : Bool) (c : UInt8) (hh : isHigh c = false)
-    (h : (if first = true then lTagStart c else lTagCont c) = true) :
-    (if first = true then mTagStart c else mTagCont c) = true := by
-  cases first <;> simp_all [lTagStart, lTagCont, mTagStart, mTagCont]
-
-theorem lTag_of_mTag (first : Bool) (c : UInt8)
-    (h : (if first = true then mTagStart c else mTagCont c) = true) :
-    (if first = true then lTagStart c else lTagCont c) = true := by
-  cases first <;> simp_all [lTagStart, lTagCont, mTagStart, mTagCont] <;> grind
-
-theorem tagScan_m_of_l (first : Bool) (t : Bytes) : ∀ (tag body : Bytes),
-    tagScan lTagStart lTagCont first t = some (tag, body) →
-    tag.all (fun b => !isHigh b) = true →
-    tagScan mTagStart mTagCont first t = some (tag, body) := by
-  fun_induction tagScan lTagStart lTagCont first t
-  · intro tag body h; simp at h
-  · intro tag body h _; simpa [tagScan] using h
-  · rename_i first c t hc hcond r hs ih
-    intro tag body h ha
-    simp at h
-    obtain ⟨h1, h2⟩ := h
-    subst h1 h2
-    simp at ha
-    have hm := mTag_of_lTag first c (by simpa using ha.1) hcond
-    have := ih r.1 r.2 (by simpa using hs) (by simpa using ha.2)
-    simp [tagScan, hc, hm, this]
-  · intro tag body h; simp at h
-  · intro tag body h; simp at h
-
-theorem tagScan_m_none (first : Bool) (t : Bytes)
-    (h : tagScan lTagStart lTagCont first t = none) : tagScan mTagStart mTagCont first t = none := by
-  fun_induction tagScan mTagStart mTagCont first t
-  · rfl
-  · simp [tagScan] at h
-  · rename_i first c t hc hcond r hs ih
-    have hl := lTag_of_mTag first c hcond
-    simp only [tagScan, hc, hl, if_false, if_true] at h
-    cases hr : tagScan lTagStart lTagCont false t with
-    | none => simp [ih hr] at hs
-    | some x => simp [hr] at h
-  · rfl
-  · rfl
+theorem isE_not_special (c : UInt8) (h : isE c = true) :
+    c ≠ DOLLAR ∧ c ≠ QUOTE ∧ c ≠ DQUOTE ∧ c ≠ DASH ∧ c ≠ SLASH := by
+  refine ⟨?_, ?_, ?_, ?_, ?_⟩ <;> (intro hc; subst hc; revert h; decide)
 
 theorem dollarTok_l_none (t : Bytes) :
     dollarTok lTagStart lTagCont t = none ↔ tagScan lTagStart lTagCont true t = none := by
@@ -156,169 +21,108 @@ theorem dollarTok_l_none (t : Bytes) :
     · split at h <;> simp at h
   · intro h; simp [h]
 
-theorem dollarTok_m_eq_l (t tag body : Bytes)
-    (h : tagScan lTagStart lTagCont true t = some (tag, body))
-    (ha : tag.all (fun b => !isHigh b) = true) :
-    dollarTok mTagStart mTagCont t = dollarTok lTagStart lTagCont t := by
-  have := tagScan_m_of_l true t tag body h ha
-  simp only [dollarTok, h, this]
-
-theorem dollarTok_m_none (t : Bytes) (h : tagScan lTagStart lTagCont true t = none) :
-    dollarTok mTagStart mTagCont t = none := by
-  simp [dollarTok, tagScan_m_none true t h]
-
-theorem mSegsF_fuel (f : Nat) : ∀ (f' : Nat) (prev : UInt8) (s : Bytes), s.length ≤ f → s.length ≤ f' →
-    mSegsF f prev s = mSegsF f' prev s := by
-  induction f with
-  | zero => intro f' prev s h _; cases s <;> simp_all [mSegsF]; cases f' <;> simp [mSegsF]
-  | succ f ih =>
-    intro f' prev s h h'
-    cases s with
-    | nil => cases f' <;> simp [mSegsF]
-    | cons c t =>
-      cases f' with
-      | zero => simp at h'
-      | succ f' =>
-        have hl := mTok_rest_le prev c t
-        simp only [mSegsF]
-        rw [ih f' _ _ (by simp at h; omega) (by simp at h'; omega)]
-
-theorem lastOr_cons_ne (a b x : UInt8) (o : Bytes) : lastOr a (x :: o) = lastOr b (x :: o) := by
-  induction o generalizing x with
-  | nil => simp [lastOr]
-  | cons y o ih => simp [lastOr, ih y]
-
-theorem lastOr_append (a : UInt8) (o : Bytes) (x : UInt8) : lastOr a (o ++ [x]) = x := by
-  induction o with
-  | nil => simp [lastOr]
-  | cons y o ih =>
-    cases o with
-    | nil => simp [lastOr]
-    | cons z o => simp only [List.cons_append, lastOr] at ih ⊢; exact ih
-
-theorem mTok_raw_clean (prev c : UInt8) (t : Bytes)
-    (hc : ((c != 39) = true ∧ (c != 34) = true) ∧ (c != 36) = true)
-    (he : ¬(isE c = true ∧ t.head? = some QUOTE)) : mTok prev c t = (.raw c, t) := by
-  simp at hc
-  have h1 : ¬c = DOLLAR := hc.2
-  have h2 : ¬c = QUOTE := hc.1.1
-  have h3 : ¬c = DQUOTE := hc.1.2
-  have h4 : ¬((isE c && decide (t.head? = some QUOTE) && !isIdentByte prev) = true) := by
-    intro h; simp at h; exact he ⟨h.1.1, h.1.2⟩
-  unfold mTok
-  rw [if_neg h1, if_neg h4, if_neg h2, if_neg h3]
-
-/-- The masker walks through the bytes of a comment that contains no quote/dollar one at a time. -/
-theorem mSegsF_raw_run (o : Bytes) : ∀ (rest : Bytes) (prev : UInt8) (f : Nat),
-    commentClean o = true → o.length + rest.length ≤ f →
-    ¬(isE (lastOr 0 o) = true ∧ rest.head? = some QUOTE) →
-    mSegsF f prev (o ++ rest) = o.map Seg.raw ++ mSegsF f (lastOr prev o) rest := by
-  induction o with
-  | nil => intro rest prev f _ _ _; simp [lastOr]
-  | cons c o ih =>
-    intro rest prev f hcl hf he
-    simp only [commentClean, List.all_cons, Bool.and_eq_true] at hcl
-    cases f with
-    | zero => simp at hf
-    | succ f =>
-      have hraw : mTok prev c (o ++ rest) = (.raw c, o ++ rest) := by
-        apply mTok_raw_clean _ _ _ hcl.1
-        intro hh
-        cases o with
-        | nil => simp [lastOr] at he; simp at hh; exact he hh.1 hh.2
-        | cons y o =>
-          simp at hh
-          simp only [List.all_cons, Bool.and_eq_true] at hcl
-          have := hcl.2.1
-          simp [hh.2, QUOTE] at this
-      simp only [List.cons_append, mSegsF, hraw, Seg.bytes, lastOr, List.map_cons]
-      cases o with
-      | nil =>
-        simp only [List.nil_append, List.map_nil, lastOr]
-        rw [mSegsF_fuel f (f + 1) c rest (by simp at hf; omega) (by simp at hf; omega)]
-      | cons y o =>
-        have := ih rest c f (by simpa [commentClean] using hcl.2) (by simp at hf ⊢; omega)
-          (by simpa [lastOr] using he)
-        rw [this]
-        simp only [List.map_cons, lastOr, List.cons_append]
-        rw [mSegsF_fuel f (f + 1) _ rest (by simp at hf; omega) (by simp at hf; omega)]
-        rw [lastOr_cons_ne c prev y o]
-
-theorem spanP_rest_head (p : UInt8 → Bool) (l : Bytes) (x : UInt8)
-    (h : (spanP p l).2.head? = some x) : p x = false := by
-  fun_induction spanP p l
-  · simp at h
-  · rename_i c t hp r ih; exact ih h
-  · rename_i c t hp; simp at h; subst h; simpa using hp
-
-theorem lBlock_end (d : Nat) (u : Bytes) (h : (lBlock d u).2 ≠ []) :
-    ∃ pre, (lBlock d u).1 = pre ++ [SLASH] := by
-  fun_induction lBlock d u
-  · simp at h
-  · simp at h
-  · rename_i d c c2 t2 hc hd
-    exact ⟨[c], by simp [hc.2]⟩
-  · rename_i d c c2 t2 hc hd r ih
-    obtain ⟨pre, hp⟩ := ih h
-    exact ⟨c :: c2 :: pre, by simp [r, hp]⟩
-  · rename_i d c c2 t2 hc hs r ih
-    obtain ⟨pre, hp⟩ := ih h
-    exact ⟨c :: c2 :: pre, by simp [r, hp]⟩
-  · rename_i d c c2 t2 hc hs r ih
-    obtain ⟨pre, hp⟩ := ih h
-    exact ⟨c :: pre, by simp [r, hp]⟩
-
-theorem isIdCont_not_quote (c : UInt8) (h : isIdCont c = true) : c ≠ QUOTE ∧ c ≠ DQUOTE := by
-  constructor <;> (intro hc; subst hc; revert h; decide)
-
-theorem isE_not_special (c : UInt8) (h : isE c = true) : c ≠ DOLLAR ∧ c ≠ QUOTE ∧ c ≠ DQUOTE := by
-  refine ⟨?_, ?_, ?_⟩ <;> (intro hc; subst hc; revert h; decide)
-
-/-- the induction step when the lexer token is not a comment and the masker produces the same token -/
-theorem step_same (f : Nat) (inId : Bool) (prev c : UInt8) (t : Bytes)
-    (ih : ∀ (inId : Bool) (prev : UInt8) (s : Bytes), s.length ≤ f → kSegsMF f inId prev s = 0 →
-      mSegsF f prev s = (lSegsF f inId s).flatMap demote)
-    (hlen : t.length ≤ f)
-    (he : mTok prev c t = ((lTok inId c t).1, (lTok inId c t).2.1))
-    (hd : demote (lTok inId c t).1 = [(lTok inId c t).1])
-    (hk : kSegsMF f (lTok inId c t).2.2 (lastOr c (lTok inId c t).1.bytes) (lTok inId c t).2.1 = 0) :
-    mSegsF (f + 1) prev (c :: t) = (lSegsF (f + 1) inId (c :: t)).flatMap demote := by
-  have hl := lTok_rest_le inId c t
-  simp only [mSegsF, lSegsF, he, List.flatMap_cons, hd]
-  rw [ih _ _ _ (by omega) hk]
-  rfl
-
-/-- the induction step when the lexer token is a comment `o` without quote/dollar bytes -/
-theorem step_comment (f : Nat) (inId : Bool) (prev c : UInt8) (t o : Bytes) (sg : Seg)
-    (ih : ∀ (inId : Bool) (prev : UInt8) (s : Bytes), s.length ≤ f → kSegsMF f inId prev s = 0 →
-      mSegsF f prev s = (lSegsF f inId s).flatMap demote)
-    (hlen : t.length ≤ f)
-    (hsg : (lTok inId c t).1 = sg) (hb : sg.bytes = o) (hd : demote sg = o.map Seg.raw)
-    (hcl : commentClean o = true)
-    (he : ¬(isE (lastOr 0 o) = true ∧ (lTok inId c t).2.1.head? = some QUOTE))
-    (hk : kSegsMF f (lTok inId c t).2.2 (lastOr c (lTok inId c t).1.bytes) (lTok inId c t).2.1 = 0) :
-    mSegsF (f + 1) prev (c :: t) = (lSegsF (f + 1) inId (c :: t)).flatMap demote := by
-  have hl := lTok_rest_le inId c t
-  have hsp := lTok_split inId c t
-  have hpos := lTok_pos inId c t
-  rw [hsg, hb] at hsp hpos
-  rw [hsg, hb] at hk
-  have hlen2 : o.length + (lTok inId c t).2.1.length ≤ f + 1 := by
-    have := congrArg List.length hsp; simp at this; omega
-  have hL : mSegsF (f + 1) prev (c :: t) =
-      o.map Seg.raw ++ mSegsF (f + 1) (lastOr prev o) (lTok inId c t).2.1 := by
-    rw [← hsp]; exact mSegsF_raw_run o _ prev (f + 1) hcl hlen2 he
-  rw [hL]
-  simp only [lSegsF, List.flatMap_cons, hsg, hd]
-  congr 1
-  cases o with
-  | nil => simp at hpos
-  | cons x o =>
-    rw [lastOr_cons_ne prev c x o, mSegsF_fuel (f + 1) f _ _ (by omega) (by omega)]
-    exact ih _ _ _ (by omega) hk
+theorem mTok_eq_lTok (inId : Bool) (prev c : UInt8) (t : Bytes) (hk0 : kTokM inId prev c t = 0) :
+    mTok prev c t = ((lTok inId c t).1, (lTok inId c t).2.1) := by
+  unfold kTokM at hk0
+  by_cases h0 : (inId && isIdCont c) = true
+  · rw [if_pos h0] at hk0
+    have h0' := h0
+    simp at h0'
+    have hq := isIdCont_not_quote c h0'.2
+    have hds := idCont_not_dash_slash c h0'.2
+    have hd5 : ¬(c = DASH ∧ t.head? = some DASH) := fun h => hds.1 h.1
+    have hd6 : ¬(c = SLASH ∧ t.head? = some STAR) := fun h => hds.2 h.1
+    rw [lTok_id _ _ _ h0]
+    unfold mTok
+    by_cases hd : c = DOLLAR
+    · rw [if_pos hd] at hk0 ⊢
+      by_cases hp : isIdentByte prev = true
+      · rw [if_pos hp]
+      · rw [if_neg hp] at hk0; simp [kDollarInIdent] at hk0
+    · rw [if_neg hd] at hk0 ⊢
+      have he : ¬((isE c && decide (t.head? = some QUOTE) && !isIdentByte prev) = true) := by
+        by_cases he : (isE c && decide (t.head? = some QUOTE)) = true
+        · rw [if_pos he] at hk0
+          by_cases hp : isIdentByte prev = true
+          · simp [hp]
+          · rw [if_neg hp] at hk0; simp [kEInIdent] at hk0
+        · intro hh; apply he; simp at hh ⊢; exact hh.1
+      rw [if_neg he, if_neg hd5, if_neg hd6, if_neg hq.1, if_neg hq.2]
+  rw [if_neg h0] at hk0
+  by_cases h1 : c = QUOTE
+  · rw [lTok_q _ _ _ h0 h1]
+    have hd : ¬c = DOLLAR := by rw [h1]; decide
+    have he : ¬((isE c && decide (t.head? = some QUOTE) && !isIdentByte prev) = true) := by
+      rw [h1]; simp [isE, QUOTE]
+    have h5 : ¬(c = DASH ∧ t.head? = some DASH) := by rw [h1]; intro h; exact absurd h.1 (by decide)
+    have h6 : ¬(c = SLASH ∧ t.head? = some STAR) := by rw [h1]; intro h; exact absurd h.1 (by decide)
+    unfold mTok
+    rw [if_neg hd, if_neg he, if_neg h5, if_neg h6, if_pos h1]
+  rw [if_neg h1] at hk0
+  by_cases h2 : c = DQUOTE
+  · rw [lTok_dq _ _ _ h0 h1 h2]
+    have hd : ¬c = DOLLAR := by rw [h2]; decide
+    have he : ¬((isE c && decide (t.head? = some QUOTE) && !isIdentByte prev) = true) := by
+      rw [h2]; simp [isE, DQUOTE]
+    have h5 : ¬(c = DASH ∧ t.head? = some DASH) := by rw [h2]; intro h; exact absurd h.1 (by decide)
+    have h6 : ¬(c = SLASH ∧ t.head? = some STAR) := by rw [h2]; intro h; exact absurd h.1 (by decide)
+    unfold mTok
+    rw [if_neg hd, if_neg he, if_neg h5, if_neg h6, if_neg h1, if_pos h2]
+  rw [if_neg h2] at hk0
+  by_cases h3 : (isE c && decide (t.head? = some QUOTE)) = true
+  · rw [if_pos h3] at hk0
+    have hp : ¬isIdentByte prev = true := by
+      intro hp; rw [if_pos hp] at hk0; simp [kEAfterDigit] at hk0
+    rw [lTok_e _ _ _ h0 h1 h2 h3]
+    have h3' := h3
+    simp at h3'
+    have hd : ¬c = DOLLAR := (isE_not_special c h3'.1).1
+    have he : (isE c && decide (t.head? = some QUOTE) && !isIdentByte prev) = true := by
+      simp [h3'.1, h3'.2, hp]
+    unfold mTok
+    rw [if_neg hd, if_pos he]
+  rw [if_neg h3] at hk0
+  have he : ¬((isE c && decide (t.head? = some QUOTE) && !isIdentByte prev) = true) := by
+    intro hh; apply h3; simp at hh ⊢; exact hh.1
+  by_cases h4 : c = DOLLAR
+  · rw [if_pos h4] at hk0
+    rw [lTok_dollar _ _ _ h0 h1 h2 h3 h4]
+    unfold mTok
+    rw [if_pos h4]
+    cases hts : tagScan lTagStart lTagCont true t with
+    | none =>
+      have hdn := (dollarTok_l_none t).2 hts
+      rw [hdn]
+      by_cases hp : isIdentByte prev = true
+      · rw [if_pos hp]
+      · rw [if_neg hp]
+    | some r =>
+      rw [hts] at hk0
+      simp only at hk0
+      have hp : ¬isIdentByte prev = true := by
+        intro hp; rw [if_pos hp] at hk0; simp [kDollarAfterDigit] at hk0
+      rw [if_neg hp]
+      cases dollarTok lTagStart lTagCont t with
+      | none => rfl
+      | some x => rfl
+  rw [if_neg h4] at hk0
+  by_cases h5 : c = DASH ∧ t.head? = some DASH
+  · rw [if_pos h5] at hk0
+    have hcr : (spanP (fun b => b != NL && b != CR) (c :: t)).2.head? ≠ some CR := by
+      intro hh; rw [if_pos hh] at hk0; simp [kCrEndsLineM] at hk0
+    rw [lTok_line _ _ _ h0 h1 h2 h3 h4 h5]
+    unfold mTok
+    rw [if_neg h4, if_neg he, if_pos h5, spanP_nl_cr _ hcr]
+  by_cases h6 : c = SLASH ∧ t.head? = some STAR
+  · rw [lTok_block _ _ _ h0 h1 h2 h3 h4 h5 h6]
+    unfold mTok
+    rw [if_neg h4, if_neg he, if_neg h5, if_pos h6]
+  · rw [lTok_other _ _ _ h0 h1 h2 h3 h4 h5 h6]
+    unfold mTok
+    rw [if_neg h4, if_neg he, if_neg h5, if_neg h6, if_neg h1, if_neg h2]
 
 theorem mSegsF_eq_lSegsF (f : Nat) : ∀ (inId : Bool) (prev : UInt8) (s : Bytes), s.length ≤ f →
-    kSegsMF f inId prev s = 0 → mSegsF f prev s = (lSegsF f inId s).flatMap demote := by
+    kSegsMF f inId prev s = 0 → mSegsF f prev s = lSegsF f inId s := by
   induction f with
   | zero => intro inId prev s h _; cases s <;> simp [mSegsF, lSegsF]
   | succ f ih =>
@@ -326,172 +130,15 @@ theorem mSegsF_eq_lSegsF (f : Nat) : ∀ (inId : Bool) (prev : UInt8) (s : Bytes
     cases s with
     | nil => simp [mSegsF, lSegsF]
     | cons c t =>
-      have hlen : t.length ≤ f := by simp at h; omega
       simp only [kSegsMF] at hk
       have hk0 : kTokM inId prev c t = 0 := by
         by_cases hk0 : kTokM inId prev c t = 0
         · exact hk0
         · simp [hk0] at hk
       simp only [hk0, ne_eq, not_true_eq_false, if_false] at hk
-      unfold kTokM at hk0
-      by_cases h0 : (inId && isIdCont c) = true
-      · -- identifier byte
-        rw [if_pos h0] at hk0
-        have h0' := h0
-        simp at h0'
-        have hq := isIdCont_not_quote c h0'.2
-        apply step_same f inId prev c t ih hlen _ _ hk
-        · rw [lTok_id _ _ _ h0]
-          unfold mTok
-          by_cases hd : c = DOLLAR
-          · rw [if_pos hd] at hk0 ⊢
-            by_cases hp : isIdentByte prev = true
-            · rw [if_pos hp]
-            · rw [if_neg hp] at hk0; simp [kDollarInIdent] at hk0
-          · rw [if_neg hd] at hk0 ⊢
-            by_cases he : (isE c && decide (t.head? = some QUOTE)) = true
-            · rw [if_pos he] at hk0
-              by_cases hp : isIdentByte prev = true
-              · have : ¬((isE c && decide (t.head? = some QUOTE) && !isIdentByte prev) = true) := by simp [hp]
-                rw [if_neg this, if_neg hq.1, if_neg hq.2]
-              · rw [if_neg hp] at hk0; simp [kEInIdent] at hk0
-            · have : ¬((isE c && decide (t.head? = some QUOTE) && !isIdentByte prev) = true) := by
-                intro hh; apply he; simp at hh ⊢; exact hh.1
-              rw [if_neg this, if_neg hq.1, if_neg hq.2]
-        · rw [lTok_id _ _ _ h0]; rfl
-      rw [if_neg h0] at hk0
-      by_cases h1 : c = QUOTE
-      · rw [if_pos h1] at hk0
-        have hn : noBsQ QUOTE (lBody QUOTE t).1 = true := by
-          by_cases hh : noBsQ QUOTE (lBody QUOTE t).1 = true
-          · exact hh
-          · rw [if_neg hh] at hk0; simp [kPlainBs] at hk0
-        apply step_same f inId prev c t ih hlen _ _ hk
-        · rw [lTok_q _ _ _ h0 h1]
-          have hd : ¬c = DOLLAR := by rw [h1]; decide
-          have he : ¬((isE c && decide (t.head? = some QUOTE) && !isIdentByte prev) = true) := by
-            rw [h1]; simp [isE, QUOTE]
-          unfold mTok
-          rw [if_neg hd, if_neg he, if_pos h1, mBody_eq_lBody QUOTE t false (by simp) hn]
-        · rw [lTok_q _ _ _ h0 h1]; rfl
-      rw [if_neg h1] at hk0
-      by_cases h2 : c = DQUOTE
-      · rw [if_pos h2] at hk0
-        have hn : noBsQ DQUOTE (lBody DQUOTE t).1 = true := by
-          by_cases hh : noBsQ DQUOTE (lBody DQUOTE t).1 = true
-          · exact hh
-          · rw [if_neg hh] at hk0; simp [kIdentBs] at hk0
-        apply step_same f inId prev c t ih hlen _ _ hk
-        · rw [lTok_dq _ _ _ h0 h1 h2]
-          have hd : ¬c = DOLLAR := by rw [h2]; decide
-          have he : ¬((isE c && decide (t.head? = some QUOTE) && !isIdentByte prev) = true) := by
-            rw [h2]; simp [isE, DQUOTE]
-          unfold mTok
-          rw [if_neg hd, if_neg he, if_neg h1, if_pos h2, mBody_eq_lBody DQUOTE t false (by simp) hn]
-        · rw [lTok_dq _ _ _ h0 h1 h2]; rfl
-      rw [if_neg h2] at hk0
-      by_cases h3 : (isE c && decide (t.head? = some QUOTE)) = true
-      · rw [if_pos h3] at hk0
-        by_cases hp : isIdentByte prev = true
-        · rw [if_pos hp] at hk0; simp [kEAfterDigit] at hk0
-        rw [if_neg hp] at hk0
-        have hn : noBsQ QUOTE (lEBody t.tail).1 = true := by
-          by_cases hh : noBsQ QUOTE (lEBody t.tail).1 = true
-          · exact hh
-          · rw [if_neg hh] at hk0; simp [kEBs] at hk0
-        apply step_same f inId prev c t ih hlen _ _ hk
-        · rw [lTok_e _ _ _ h0 h1 h2 h3]
-          have h3' := h3
-          simp at h3'
-          have hd : ¬c = DOLLAR := (isE_not_special c h3'.1).1
-          have he : (isE c && decide (t.head? = some QUOTE) && !isIdentByte prev) = true := by
-            simp [h3'.1, h3'.2, hp]
-          unfold mTok
-          rw [if_neg hd, if_pos he, mBody_eq_lEBody t.tail false (by simp) hn]
-        · rw [lTok_e _ _ _ h0 h1 h2 h3]; rfl
-      rw [if_neg h3] at hk0
-      have he : ¬((isE c && decide (t.head? = some QUOTE) && !isIdentByte prev) = true) := by
-        intro hh; apply h3; simp at hh ⊢; exact hh.1
-      by_cases h4 : c = DOLLAR
-      · rw [if_pos h4] at hk0
-        cases hts : tagScan lTagStart lTagCont true t with
-        | none =>
-          have hdn := (dollarTok_l_none t).2 hts
-          apply step_same f inId prev c t ih hlen _ _ hk
-          · rw [lTok_dollar _ _ _ h0 h1 h2 h3 h4, hdn]
-            unfold mTok
-            rw [if_pos h4]
-            by_cases hp : isIdentByte prev = true
-            · rw [if_pos hp]
-            · rw [if_neg hp, dollarTok_m_none t hts]
-          · rw [lTok_dollar _ _ _ h0 h1 h2 h3 h4, hdn]; rfl
-        | some r =>
-          obtain ⟨tag, body⟩ := r
-          rw [hts] at hk0
-          simp only at hk0
-          by_cases hp : isIdentByte prev = true
-          · rw [if_pos hp] at hk0; simp [kDollarAfterDigit] at hk0
-          rw [if_neg hp] at hk0
-          have ha : tag.all (fun b => !isHigh b) = true := by
-            by_cases hh : tag.all (fun b => !isHigh b) = true
-            · exact hh
-            · rw [if_neg hh] at hk0; simp [kDollarTagHigh] at hk0
-          have hme := dollarTok_m_eq_l t tag body hts ha
-          apply step_same f inId prev c t ih hlen _ _ hk
-          · rw [lTok_dollar _ _ _ h0 h1 h2 h3 h4]
-            unfold mTok
-            rw [if_pos h4, if_neg hp, hme]
-            cases dollarTok lTagStart lTagCont t with
-            | none => rfl
-            | some x => rfl
-          · rw [lTok_dollar _ _ _ h0 h1 h2 h3 h4]
-            cases dollarTok lTagStart lTagCont t with
-            | none => rfl
-            | some x => rfl
-      rw [if_neg h4] at hk0
-      by_cases h5 : c = DASH ∧ t.head? = some DASH
-      · rw [if_pos h5] at hk0
-        have hcl : commentClean (spanP (fun b => b != NL && b != CR) (c :: t)).1 = true := by
-          by_cases hh : commentClean (spanP (fun b => b != NL && b != CR) (c :: t)).1 = true
-          · exact hh
-          · rw [if_neg hh] at hk0; simp [kQuoteInLine] at hk0
-        have hlt := lTok_line _ _ _ h0 h1 h2 h3 h4 h5
-        apply step_comment f inId prev c t (spanP (fun b => b != NL && b != CR) (c :: t)).1
-          (.lcom (spanP (fun b => b != NL && b != CR) (c :: t)).1) ih hlen (by rw [hlt]) rfl rfl hcl _ hk
-        rw [hlt]
-        intro hh
-        have := spanP_rest_head _ _ _ hh.2
-        simp [QUOTE, NL, CR] at this
-      rw [if_neg h5] at hk0
-      by_cases h6 : c = SLASH ∧ t.head? = some STAR
-      · rw [if_pos h6] at hk0
-        have hcl : commentClean (lBlock 1 t.tail).1 = true := by
-          by_cases hh : commentClean (lBlock 1 t.tail).1 = true
-          · exact hh
-          · rw [if_neg hh] at hk0; simp [kQuoteInBlock] at hk0
-        have hlt := lTok_block _ _ _ h0 h1 h2 h3 h4 h5 h6
-        have hcl2 : commentClean (c :: STAR :: (lBlock 1 t.tail).1) = true := by
-          simp only [commentClean, List.all_cons, Bool.and_eq_true] at hcl ⊢
-          refine ⟨?_, ?_, hcl⟩
-          · rw [h6.1]; decide
-          · decide
-        apply step_comment f inId prev c t (c :: STAR :: (lBlock 1 t.tail).1)
-          (.bcom (c :: STAR :: (lBlock 1 t.tail).1)) ih hlen (by rw [hlt]) rfl rfl hcl2 _ hk
-        rw [hlt]
-        intro hh
-        have hne : (lBlock 1 t.tail).2 ≠ [] := by
-          intro h'; simp [h'] at hh
-        obtain ⟨pre, hpre⟩ := lBlock_end 1 t.tail hne
-        have : lastOr 0 (c :: STAR :: (lBlock 1 t.tail).1) = SLASH := by
-          simp only [hpre]
-          have := lastOr_append 0 (c :: STAR :: pre) SLASH
-          simpa using this
-        rw [this] at hh
-        simp [isE, SLASH] at hh
-      · apply step_same f inId prev c t ih hlen _ _ hk
-        · rw [lTok_other _ _ _ h0 h1 h2 h3 h4 h5 h6]
-          unfold mTok
-          rw [if_neg h4, if_neg he, if_neg h1, if_neg h2]
-        · rw [lTok_other _ _ _ h0 h1 h2 h3 h4 h5 h6]; rfl
+      have he := mTok_eq_lTok inId prev c t hk0
+      have hl := lTok_rest_le inId c t
+      simp only [mSegsF, lSegsF, he]
+      rw [ih _ _ _ (by simp at h; omega) hk]
 
 end Arc.C15
